@@ -59,6 +59,26 @@ where
     run_sim(spec, cutoff, move || shuttle::future::block_on(f()))
 }
 
+/// A world shared by the node tasks of one simulated execution (which shuttle runs one at a time on a single OS thread).
+/// Every task keeps a clone for as long as it uses anything borrowed from the world, so the borrow handed out by `get` is
+/// valid although its lifetime is erased; the world is dropped, inside the execution, when the last clone goes.
+pub struct SharedWorld<T>(StdArc<T>);
+unsafe impl<T> Send for SharedWorld<T> {}
+unsafe impl<T> Sync for SharedWorld<T> {}
+impl<T> SharedWorld<T> {
+    pub fn new(t: T) -> Self {
+        Self(StdArc::new(t))
+    }
+    pub fn share(&self) -> Self {
+        Self(StdArc::clone(&self.0))
+    }
+    /// # Safety
+    /// The caller keeps a clone of `self` alive for as long as the returned borrow (or anything derived from it) is in use.
+    pub unsafe fn get(&self) -> &'static T {
+        unsafe { &*StdArc::as_ptr(&self.0) }
+    }
+}
+
 pub fn role_idx(r: crate::helpers::Role) -> usize {
     match r {
         crate::helpers::Role::H1 => 0,
